@@ -2,17 +2,19 @@ chk("C05", "proof",
     "Unbounded theorems in coq/Properties/C05.v about a Gallina transcription of the IMSC writer's value printers and the IMSC "
     "reader's value parsers: clock-time printing of every millisecond multiple below 100 h is read back exactly; frames printing "
     "ceil(t*fps) is read back as a time never earlier than t, later by less than one frame, exact on whole frames and monotone; "
+    "clock time with frames is read back as floor(t*F)/F; the written ttp:frameRate/frameRateMultiplier are read back as the rate (7 rates); "
     "attribute round trips extract(print v) = v for the 16 enumeration-valued properties (decided on the tables regenerated from "
     "the source), itts:fillLineGap, every RGBA8 colour, and - with Python's format(x,'g') transcribed exactly over Q - every length "
     "x in every unit is read back rounded to six significant digits whenever the writer stays in fixed notation (tts:fontSize, "
-    "tts:disparity, tts:lineHeight, ebutts:linePadding in c, tts:extent, tts:origin, tts:padding). The transcription is compared "
+    "tts:disparity, tts:lineHeight, ebutts:linePadding in c, tts:extent, tts:origin, tts:padding, tts:position, tts:rubyReserve, "
+    "tts:textOutline, tts:textShadow with one shadow); all 27 tts:textDecoration values; tts:textEmphasis (7 styles x 3 positions, with any colour or none) "
+    "- 32 of the 36 properties. The transcription is compared "
     "with StyleProperties.*.from_model / has_px / extract, format(x,'g'), to_time_format and FrameRateAttribute.set on generated "
     "values, and the round trip itself is run on generated documents x 5 writer configurations x 7 frame rates and judged by "
     "Spec/ImscRoundTripSpec.v (offsets, order, values) and by snapshot comparison.",
     "Trusted: Coq kernel/vm_compute; XML serialisation and parsing; harness/imsc_docgen.py (generator, value literals), the harness's "
     "tree comparison and snapshot comparison; floats identified with the rationals they denote. Not proved (round trip compared on "
-    "generated documents only): tts:position, textOutline, textShadow, rubyReserve, textDecoration, textEmphasis, fontFamily, "
-    "opacity, shear, luminanceGain, clock_time_with_frames, and the tree-level statement read(write d) ~ d. Recorded findings: "
+    "generated documents only): tts:fontFamily, opacity, shear, luminanceGain, and the tree-level statement read(write d) ~ d. Recorded findings: "
     "none-special-value, adjacent-text, lang-not-written, g-exponent, number-as-fraction, linepadding-units, fontfamily-syntax, "
     "transparent-background, negative-time, shear-clamped, textshadow-list, px-not-scanned.",
     "Coq theorems (digit-list induction, Q arithmetic, finite tables by vm_compute) + in-Coq differential run of model and spec on generated cases",
